@@ -84,6 +84,21 @@ Eval vm_compute in (1%nat, idx (fun c => agree (ingest (fst c)) (snd c)) cases).
     return dict(cases=len(rows), bad=bad, disagreements=dis, coq_failures=fails)
 
 
+def mixed_repeat(d):
+    for it in d:
+        if it[0] == "fork":
+            if it[1] in ("AND", "OR") and len(it[2]) >= 3:
+                sets = [set(P.events_of(b)) for b in it[2]]
+                for t in set().union(*sets):
+                    if 2 <= sum(1 for s0 in sets if t in s0) < len(sets):
+                        return True
+            if any(mixed_repeat(b) for b in it[2]):
+                return True
+        elif it[0] == "loop" and mixed_repeat(it[1]):
+            return True
+    return False
+
+
 def files_leg(out, recs, n):
     """The same job set handed to the real CLI (pv2puml, positional file paths) in four file presentations:
        F0 one array file per job, listed in order;   F1 the same files listed shuffled, events shuffled inside each file;
@@ -218,7 +233,12 @@ def run(out, explore=0):
     bpool = [_json.loads(l) for l in (_Path(__file__).resolve().parent / "pool" / "B.jsonl").read_text().splitlines() if l.strip()]
     # and loop-rich definitions (a loop on another loop's break path, two loops after one event): frozen pool harness/pool/L.jsonl
     lpool = [_json.loads(l) for l in (_Path(__file__).resolve().parent / "pool" / "L.jsonl").read_text().splitlines() if l.strip()]
-    for rec in L.select(rpool, out.seed + 2, out.tier, 40) + L.select(bpool, out.seed + 3, out.tier, 60) + L.select(lpool, out.seed + 4, out.tier, 40):
+    extra = L.select(rpool, out.seed + 2, out.tier, 40) + L.select(bpool, out.seed + 3, out.tier, 60) + L.select(lpool, out.seed + 4, out.tier, 40)
+    # always: the pool-B definitions in which an event type occurs in two or more, but not all, branches of an AND/OR fork of
+    # three or more branches (successor / predecessor sets that mix a repeated with a non-repeated type)
+    have = {r["id"] for r in extra}
+    extra += [r for r in bpool if r["id"] not in have and mixed_repeat(r["d"])]
+    for rec in extra:
         jobs = L.complete_jobs(rec)
         recs.append(rec)
         for v in variants:
